@@ -2,12 +2,20 @@
 C14 — driver: replays an implementation trace through the model (correspondence) and the spec (monitor).
 
 cfg:  via=<fromdb|named|namedbad|onconn|cached> accept=<none|user>
-op:   tx api=<plain|ctx|ctxdone> begin=<ok|fail> stmts=<[xfiqghnm]*|-> end=<ok|err:<cls>|panic|panicerr|panicnil>
-         commit=<ok|fail> rollback=<ok|fail> brk=<allow|reject>
-obs:  log=<B,E0,Q1!,C|-> runs=<n> body=<notrun|nil|panic|err:<src>> ret=<nil|is:<src+…|->/says:<src+…|->> mark=<ok|fail|-|?>
+op:   tx api=<plain|ctx|ctxdone|ctxdead> begin=<ok|fail> bad=<n> stmts=<[xXfiqYghnmNMpP]*|->
+         end=<ok|err:<cls>|panic|panicerr|panicnil> commit=<ok|fail|panic> rollback=<ok|fail|panic>
+         brk=<allow|reject> cancel=<-|c<k>|d<k>>
+obs:  log=<BB,B,E0,Q1!,C|-> runs=<n> body=<notrun|nil|panic|err:<src>> ret=<nil|is:<src+…|->/says:<src+…|->>
+         mark=<ok|fail|-|?> esc=<0|1>
 
-statement letters: x exec ok · f exec fault, body returns it · i exec fault, body ignores it · q query ok ·
-g query fault returned · h query fault ignored · n nested Transact, error returned · m nested Transact, error ignored
+statement letters: x exec ok, result not looked at · X exec ok, `if err != nil { return err }` · f exec fault, body
+returns it · i exec fault, body ignores it · q / Y / g / h the same for a query · n nested Transact, error returned ·
+m nested Transact, error ignored · N / M the same through the nested TransactCtx · p / P a statement prepared
+inside the transaction (Session.Prepare[Ctx], executed, closed): ok and checked / fault returned
+bad=<n>: the driver answers Begin with driver.ErrBadConn n times first (log BB).
+cancel=c<k> / d<k>: the context given to TransactCtx is cancelled / runs into its deadline just before statement k
+(k = number of statements: just before the body ends); api=ctxdead: the deadline has passed before the call.
+commit=panic / rollback=panic: the driver's Commit / Rollback panics (log C! / R!, obs esc=1 when the call left by a panic).
 -/
 import GoZero.Base.Trace
 import GoZero.C14.Spec
@@ -24,7 +32,7 @@ def Cls.render : Cls → String
 def Src.render : Src → String
   | .begin => "begin" | .body c => "body." ++ c.render | .stmt i => s!"stmt{i}" | .commit => "commit"
   | .rollback => "rollback" | .conn => "conn" | .ctx => "ctx" | .breaker => "breaker" | .nest => "nest"
-  | .panic => "panic"
+  | .panic => "panic" | .deadline => "deadline" | .badConn => "badconn"
 
 def renderSrcs (l : List Src) : String :=
   if l.isEmpty then "-" else "+".intercalate (l.map Src.render)
@@ -43,6 +51,7 @@ def Ev.render : Ev → String
   | .query i ok => s!"Q{i}" ++ bang ok
   | .commit ok => "C" ++ bang ok
   | .rollback ok => "R" ++ bang ok
+  | .beginBad => "BB"
 
 def renderLog (l : List Ev) : String :=
   if l.isEmpty then "-" else ",".intercalate (l.map Ev.render)
@@ -56,7 +65,7 @@ def renderMark : Option Bool → String
 
 def Result.render (r : Result) (withMark : Bool) : String :=
   s!"log={renderLog r.log} runs={r.runs} body={r.body.render} ret={renderRet r.ret} mark=" ++
-    (if withMark then renderMark r.mark else "?")
+    (if withMark then renderMark r.mark else "?") ++ (if r.escaped then " esc=1" else " esc=0")
 
 /-! ### parsing -/
 
@@ -69,7 +78,7 @@ def parseSrc (s : String) : Option Src :=
   match s with
   | "begin" => some .begin | "commit" => some .commit | "rollback" => some .rollback
   | "conn" => some .conn | "ctx" => some .ctx | "breaker" => some .breaker | "nest" => some .nest
-  | "panic" => some .panic
+  | "panic" => some .panic | "deadline" => some .deadline | "badconn" => some .badConn
   | _ =>
     match s.splitOn "." with
     | ["body", c] => (parseCls c).map Src.body
@@ -97,6 +106,7 @@ def parseEv (tok : String) : Option Ev :=
   let failed := cs.getLast? == some '!'
   let core := if failed then cs.dropLast else cs
   match core with
+  | ['B', 'B'] => if failed then none else some .beginBad
   | ['B'] => some (.begin (!failed))
   | ['C'] => some (.commit (!failed))
   | ['R'] => some (.rollback (!failed))
@@ -127,7 +137,9 @@ def parseObs (obs : List String) : Option (Result × Bool) := do
   let body ← parseBodyOut (← kv? obs "body")
   let ret ← parseRet (← kv? obs "ret")
   let mark ← parseMark (← kv? obs "mark")
-  pure ({ log := log, runs := runs, body := body, ret := ret, mark := mark.getD none }, mark.isSome)
+  let esc ← (match (← kv? obs "esc") with
+    | "0" => some false | "1" => some true | _ => none)
+  pure ({ log := log, runs := runs, body := body, ret := ret, mark := mark.getD none, escaped := esc }, mark.isSome)
 
 def parseStmt : Char → Option Stmt
   | 'x' => some { kind := .exec, fails := false, prop := false }
@@ -138,6 +150,12 @@ def parseStmt : Char → Option Stmt
   | 'h' => some { kind := .query, fails := true, prop := false }
   | 'n' => some { kind := .nest, fails := true, prop := true }
   | 'm' => some { kind := .nest, fails := true, prop := false }
+  | 'X' => some { kind := .exec, fails := false, prop := true }
+  | 'Y' => some { kind := .query, fails := false, prop := true }
+  | 'p' => some { kind := .exec, fails := false, prop := true }     -- prepared inside the transaction
+  | 'P' => some { kind := .exec, fails := true, prop := true }
+  | 'N' => some { kind := .nest, fails := true, prop := true }
+  | 'M' => some { kind := .nest, fails := true, prop := false }
   | _ => none
 
 def parseStmts (s : String) : Option (List Stmt) :=
@@ -155,6 +173,18 @@ def parseEnd (s : String) : Option End :=
 def parseOk : String → Option Bool
   | "ok" => some true | "fail" => some false | _ => none
 
+/-- answer of the driver's Commit / Rollback: (ok, panics) -/
+def parseEndAns : String → Option (Bool × Bool)
+  | "ok" => some (true, false) | "fail" => some (false, false) | "panic" => some (false, true) | _ => none
+
+/-- `-` | `c<k>` | `d<k>` → (cancelAt, deadline) -/
+def parseCancel (s : String) : Option (Option Nat × Bool) :=
+  match s.toList with
+  | ['-'] => some (none, false)
+  | 'c' :: ds => (String.ofList ds).toNat?.map fun k => (some k, false)
+  | 'd' :: ds => (String.ofList ds).toNat?.map fun k => (some k, true)
+  | _ => none
+
 structure Op where
   api : String
   f   : Faults
@@ -167,17 +197,26 @@ def parseOp (op : List String) : Option Op :=
   match op with
   | "tx" :: rest => do
     let api ← kv? rest "api"
-    if !(["plain", "ctx", "ctxdone"].contains api) then none
+    if !(["plain", "ctx", "ctxdone", "ctxdead"].contains api) then none
     let bg ← parseOk (← kv? rest "begin")
-    let cm ← parseOk (← kv? rest "commit")
-    let rb ← parseOk (← kv? rest "rollback")
+    let bad ← (← kv? rest "bad").toNat?
+    let cm ← parseEndAns (← kv? rest "commit")
+    let rb ← parseEndAns (← kv? rest "rollback")
     let st ← parseStmts (← kv? rest "stmts")
     let en ← parseEnd (← kv? rest "end")
+    let cn ← parseCancel (← kv? rest "cancel")
+    -- only a TransactCtx body has a context that can end under it; the position is inside the body
+    if cn.1.isSome && api != "ctx" then none
+    if (cn.1.getD 0) > st.length then none
     let brk ← (match (← kv? rest "brk") with
       | "allow" => some true | "reject" => some false | _ => none)
     let oq := (match (← kv? rest "end") with
       | "goexit" => "goexit" | "panicnil1" => "nilpanic" | _ => "")
-    pure { api := api, f := { begin := bg, commit := cm, rollback := rb }, b := { stmts := st, fin := en },
+    if oq != "" && (cm.2 || rb.2) then none
+    pure { api := api,
+           f := { begin := bg, commit := cm.1, rollback := rb.1, badConn := bad, commitPanics := cm.2,
+                  rollbackPanics := rb.2 },
+           b := { stmts := st, fin := en, cancelAt := cn.1, deadline := cn.2 },
            brkAllow := brk, oq := oq }
   | _ => none
 
@@ -198,9 +237,11 @@ def runSection (r : Report) (s : Section) : Report := Id.run do
       let impl := joinSp l.obs
       -- exits outside the quantifier (Goexit, nil panic under GODEBUG=panicnil=1): informational. The code
       -- either commits (recover() != nil saw nothing) or rolls back (completion flag); both are followed.
-      let envOq : Env := { ctxDone := op.api == "ctxdone", brkAllow := op.brkAllow,
+      let ctxDone := op.api == "ctxdone" || op.api == "ctxdead"
+      let envOq : Env := { ctxDone := ctxDone, brkAllow := op.brkAllow,
                            connOk := via != "namedbad", userAccept := accept == "user" }
-      if op.oq != "" && (via == "onconn" || envOq.admitted) && op.f.begin && (runStmts 0 op.b.stmts).2.isNone
+      if op.oq != "" && (via == "onconn" || envOq.admitted) && op.f.opens
+          && (runStmts op.b.cancelAt op.b.deadline 0 op.b.stmts).2.isNone
           && kvStr l.obs "ret" "?" != "is:breaker/says:-" then
         let lg := kvStr l.obs "log" "?"
         let bd := kvStr l.obs "body" "?"
@@ -220,14 +261,16 @@ def runSection (r : Report) (s : Section) : Report := Id.run do
         r := r.violation s.idx l.idx s!"clauses=[no-orderly-return] impl=[{impl}] op=[{joinSp l.op}]"
       | some (obs, markSeen) =>
         -- the real breaker's admission is an environment input: follow what was observed
-        let realReject := op.brkAllow && op.api != "ctxdone" && via != "onconn" && isBreakerReject obs
+        let realReject := op.brkAllow && !ctxDone && via != "onconn" && isBreakerReject obs
         if realReject then r := r.addCover "breaker-real-reject"
-        let env : Env := { ctxDone := op.api == "ctxdone", brkAllow := op.brkAllow && !realReject,
-                           connOk := via != "namedbad", userAccept := accept == "user" }
+        let env : Env := { ctxDone := ctxDone, brkAllow := op.brkAllow && !realReject,
+                           connOk := via != "namedbad", userAccept := accept == "user",
+                           ctxDead := op.api == "ctxdead" }
         let m := if via == "onconn" then transactOnConn op.f op.b else transactCtx env op.f op.b
         let want := m.render markSeen
         if want ≠ impl then r := r.mismatch s.idx l.idx want impl
-        let bad := Spec.violated obs
+        let bad := Spec.violated obs ++
+          (if markSeen && !Spec.breakerTold env.userAccept obs then ["breaker-told"] else [])
         if !bad.isEmpty then
           r := r.violation s.idx l.idx s!"clauses=[{",".intercalate bad}] impl=[{impl}] op=[{joinSp l.op}]"
         -- coverage
@@ -244,7 +287,32 @@ def runSection (r : Report) (s : Section) : Report := Id.run do
                       renderSrcs (e.says.map fun | .stmt _ => .stmt 0 | x => x)))
         r := r.addCover ("mark-" ++ renderMark m.mark)
         r := r.addCover (s!"stmts-{min op.b.stmts.length 6}")
-        if op.b.stmts.any (fun st => st.failing && !st.prop) then r := r.addCover "stmt-error-ignored"
+        if op.b.stmts.any (fun st => (st.kind == .nest || st.fails) && !st.prop) then
+          r := r.addCover "stmt-error-ignored"
+        if op.b.stmts.any (fun st => st.prop && !st.fails && st.kind != .nest) then
+          r := r.addCover "stmt-ok-error-checked"
+        if ((kv? l.op "stmts").getD "").toList.any (fun c => c == 'p' || c == 'P') then
+          r := r.addCover "stmt-prepared-in-tx"
+        -- the classes of fault points of this round
+        if op.f.badConn > 0 then
+          r := r.addCover (s!"begin-badconn-{min op.f.badConn 4}" ++ (if op.f.opens then "-then-opened" else "-not-opened"))
+        if m.escaped then
+          r := r.addCover ("escaped-" ++ (match m.log.getLast? with | some e => e.render | none => "none") ++
+            "-body-" ++ (match m.body with | .nil => "nil" | .panic => "panic" | .err _ => "err" | .notRun => "notrun"))
+        if op.f.commitPanics && !m.escaped then r := r.addCover "commit-would-panic-not-reached"
+        if op.f.rollbackPanics && !m.escaped then r := r.addCover "rollback-would-panic-not-reached"
+        match op.b.cancelAt with
+        | none => pure ()
+        | some k =>
+          let kind := if op.b.deadline then "deadline" else "cancel"
+          let pos := if k == 0 then "before-first" else if k == op.b.stmts.length then "before-body-end" else "mid-body"
+          let out := (match m.body with
+            | .notRun => "notrun" | .nil => "nil-COMMIT" | .panic => "panic-ROLLBACK"
+            | .err e => "err-" ++ (match e.is with
+                | [.ctx] => "ctx" | [.deadline] => "deadline" | [.stmt _] => "stmt" | [.nest] => "nest" | _ => "own") ++ "-ROLLBACK")
+          r := r.addCover s!"ctx-{kind}-{pos}"
+          if m.runs == 1 then r := r.addCover s!"ctx-{kind}-body-{out}"
+          if m.runs == 1 then r := r.addCover ("ctx-ends-under-body-via-" ++ via)
   return r
 
 def driver (secs : List Section) : Report := secs.foldl runSection {}
